@@ -35,7 +35,12 @@ import (
 
 const c20Fixed = true
 
-var c20Denoms = []string{USDC, ATOM, ELYS}
+// c20PriceFixed selects the market-price model the keeper's value is compared with (Models/ShieldPrice.v price_gen): false = the code before
+// fix: 12bba76 (USD value of one base unit of each side, then the quotient); true = the code as it is in /repo since that commit (one
+// division of the whole-token prices). Finding: C20:executed-without-trigger:market-price-rounded-per-base-unit (known_findings.json, fixed).
+const c20PriceFixed = true
+
+var c20Denoms = []string{USDC, ATOM, ELYS, WETH} // WETH (18 decimals) exists on markets built with Extra18 only
 
 const c20Users = 4 // model users 0..3 = market users 1..4
 
@@ -59,17 +64,25 @@ type c20Op struct {
 	N    int64  `json:"n,omitempty"`
 	DT   int64  `json:"dt,omitempty"`
 	Idx2 []int  `json:"idx2,omitempty"` // execute: perpetual order selectors
+	Ast  int    `json:"ast,omitempty"`  // perp: trading asset 0 = uatom (pool 1), 1 = aweth (pool 2, 18 decimals)
+	Sc   int    `json:"sc,omitempty"`   // 1: an absolute amount of an 18-decimals denom is multiplied by 10^12 (same whole-token size as for 6 decimals)
+	RAbs string `json:"rabs,omitempty"` // spot_create: absolute order rate (overrides Rate); price_abs: the oracle price to feed
 }
 
 type c20Hist struct {
-	ID  int     `json:"id"`
-	Ops []c20Op `json:"ops"`
+	ID    int     `json:"id"`
+	Plain bool    `json:"plain,omitempty"` // market without the 18-decimals asset aweth and its pool
+	Ops   []c20Op `json:"ops"`
 }
 
-var c20Pairs = [][2]string{{ATOM, USDC}, {USDC, ATOM}, {ELYS, USDC}, {USDC, ELYS}, {ATOM, ELYS}}
+var c20Pairs = [][2]string{{ATOM, USDC}, {USDC, ATOM}, {ELYS, USDC}, {USDC, ELYS}, {ATOM, ELYS},
+	{WETH, USDC}, {USDC, WETH}, {WETH, ATOM}, {ATOM, WETH}} // mixed decimals: the price of one base unit is off 1 by 10^-+12
+
+// c20Plain: every fourth generated history runs on the market without aweth (pairs naming it have no price there)
+func c20Plain(id int) bool { return id%4 == 3 }
 
 func c20Gen(r *Rng, id int) c20Hist {
-	h := c20Hist{ID: id}
+	h := c20Hist{ID: id, Plain: c20Plain(id)}
 	n := 34 + r.Intn(26)
 	rel := func() string {
 		if r.Chance(25) {
@@ -98,6 +111,9 @@ func c20Gen(r *Rng, id int) c20Hist {
 				typ = 3
 			}
 			o := c20Op{Op: "spot_create", U: u, Typ: typ, Pair: r.Intn(len(c20Pairs)), Rate: r.Intn(7), Amt: rel()}
+			if r.Chance(70) {
+				o.Sc = 1
+			}
 			if r.Chance(10) {
 				o.Den = 1 + r.Intn(2)
 			}
@@ -110,6 +126,12 @@ func c20Gen(r *Rng, id int) c20Hist {
 			}
 		case x < 27:
 			o := c20Op{Op: "perp_create", U: u, Typ: 1 + r.Intn(2), Rate: r.Intn(7), Lev: []string{"1.5", "2", "3", "6", "10", "25", "1"}[r.Intn(7)]}
+			if r.Chance(40) {
+				o.Ast = 1
+			}
+			if r.Chance(70) {
+				o.Sc = 1
+			}
 			if o.Typ == 1 && r.Chance(30) {
 				o.Den = 1
 			}
@@ -153,13 +175,17 @@ func c20Gen(r *Rng, id int) c20Hist {
 			}
 			h.Ops = append(h.Ops, o)
 		case x < 83:
-			h.Ops = append(h.Ops, c20Op{Op: "price_to", Kind: r.Intn(2), Idx: sel(1), Off: r.Intn(3) - 1})
+			o := c20Op{Op: "price_to", Kind: r.Intn(2), Idx: sel(1), Off: r.Intn(3) - 1}
+			if r.Chance(30) {
+				o.P = "fine"
+			}
+			h.Ops = append(h.Ops, o)
 		case x < 88:
-			h.Ops = append(h.Ops, c20Op{Op: "price", D: 1 + r.Intn(2), P: []string{"0.8", "0.9", "0.99", "1.01", "1.1", "1.25"}[r.Intn(6)]})
+			h.Ops = append(h.Ops, c20Op{Op: "price", D: 1 + r.Intn(3), P: []string{"0.8", "0.9", "0.99", "1.01", "1.1", "1.25", "1.0003", "0.99985", "1.000000007"}[r.Intn(9)]})
 		case x < 90:
-			h.Ops = append(h.Ops, c20Op{Op: "price_missing", D: 1 + r.Intn(2)})
+			h.Ops = append(h.Ops, c20Op{Op: "price_missing", D: 1 + r.Intn(3)})
 		case x < 94:
-			h.Ops = append(h.Ops, c20Op{Op: "send", U: u, Kind: r.Intn(3), Idx: sel(1), D: r.Intn(3), Amt: r.Decade(0, 9).String()})
+			h.Ops = append(h.Ops, c20Op{Op: "send", U: u, Kind: r.Intn(3), Idx: sel(1), D: r.Intn(4), Sc: r.Intn(2), Amt: r.Decade(0, 9).String()})
 		default:
 			h.Ops = append(h.Ops, c20Op{Op: "blocks", N: r.Pick(1, 1, 2), DT: r.Pick(5, 5, 60, 3700)})
 		}
@@ -188,6 +214,9 @@ type c20Run struct {
 	// ghost: tokens third parties sent straight to escrow accounts of a user's orders (not the owner's funds:
 	// a perpetual cancel returns exactly the collateral and leaves such tokens behind)
 	don map[[2]int]*big.Int
+	// independent market price (c20_price_test.go)
+	pchecks                                                    []string // inputs of the keeper's price computations, for Run/ShieldPriceRun.v
+	noOracle, priceCmp, unitZero, ambig, metButSkipped, wethAttempts int
 }
 
 type c20Snap struct {
@@ -464,9 +493,14 @@ type c20Reso struct {
 	id    uint64
 	text  string
 	found bool
-	price bool
-	trig  bool
+	price bool   // the keeper reports a market price
+	trig  bool   // what the CODE decided (by the keeper's price): only used to read the inner call's result off the attempt
 	inner string // ok err panic none
+	// the property's verdict, from the independent price (the keeper's only where the oracle has no record: exact == false)
+	vprice, vtrig, vambig, exact bool
+	vdetail                      string
+	px                           c20Px
+	kp                           sdkmath.LegacyDec // the keeper's spot market price (valid if price)
 }
 
 // resolve runs every order attempt of an execute request, one at a time, on a scratch branch that is
@@ -495,6 +529,20 @@ func (x *c20Run) resolve(sender string, sids, pids []uint64) (rs, rp []c20Reso) 
 				r.price, r.trig = true, c20PerpTrig(o, mp)
 				r.text = fmt.Sprintf("mkR (Some %s) ", c20Dec(mp))
 			}
+			// verdict: the oracle's record of the trading asset's display asset, read from x/oracle directly (per whole token, as the trigger)
+			if ip, _, ok := x.c20Oracle(ctx0, o.TradingAsset); ok {
+				r.vprice, r.vtrig, r.exact = true, c20PerpTrig(o, ip), true
+				r.vdetail = fmt.Sprintf("oracle price of %s %s, trigger %s, position %s", o.TradingAsset, ip, o.TriggerPrice.Rate, o.Position)
+				x.col.ImplCheck(1)
+				if err != nil || !mp.Equal(ip) {
+					x.fail("C20:perpetual-market-price-differs-from-oracle-record", fmt.Sprintf("order %d: perpetual keeper price %s (err %v), %s", id, mp, err, r.vdetail))
+				}
+			} else {
+				r.vprice, r.vtrig = r.price, r.trig
+			}
+			if o.TradingAsset == WETH {
+				x.wethAttempts++
+			}
 			msg = &tstypes.MsgExecuteOrders{Creator: sender, PerpetualOrderIds: []uint64{id}}
 		} else {
 			o, found := k.GetPendingSpotOrder(ctx0, id)
@@ -508,6 +556,20 @@ func (x *c20Run) resolve(sender string, sids, pids []uint64) (rs, rp []c20Reso) 
 			if ok {
 				r.price, r.trig = true, c20SpotTrig(o, mp) && !mp.IsZero()
 				r.text = fmt.Sprintf("mkR (Some %s) ", c20Dec(mp))
+			}
+			px := x.c20Exact(ctx0, o.OrderPrice.BaseDenom, o.OrderPrice.QuoteDenom)
+			x.c20PriceCheck(o.OrderPrice.BaseDenom, o.OrderPrice.QuoteDenom, mp, ok, px)
+			r.px, r.kp = px, mp
+			if px.ok {
+				r.vprice, r.exact = true, true
+				r.vtrig, r.vambig = c20SpotTrigExact(o, px.e)
+				r.vdetail = fmt.Sprintf("%s, order rate %s, type %s, keeper price %s (known: %v)", px, o.OrderPrice.Rate, o.OrderType, mp, ok)
+				x.pchecks = append(x.pchecks, c20PcheckCoq(len(x.steps), id, px))
+			} else {
+				r.vprice, r.vtrig = r.price, r.trig
+			}
+			if o.OrderPrice.BaseDenom == WETH || o.OrderPrice.QuoteDenom == WETH {
+				x.wethAttempts++
 			}
 			msg = &tstypes.MsgExecuteOrders{Creator: sender, SpotOrderIds: []uint64{id}}
 		}
@@ -597,7 +659,31 @@ func c20Rel(s string, base sdkmath.Int) sdkmath.Int {
 	}
 }
 
+// absolute amounts are drawn for 6 decimals: with Sc they are taken in the same whole-token terms for an 18-decimals denom
+func c20Scale(op c20Op, den, amt string, a sdkmath.Int) sdkmath.Int {
+	if op.Sc == 1 && c20Decimals[den] == 18 && !strings.HasPrefix(amt, "rel:") {
+		return a.Mul(sdkmath.NewInt(1_000_000_000_000))
+	}
+	return a
+}
+
 // rate relative to a market price: at, one step above / below, +-10 %, zero, far
+// "one step" beside a spot market price: 10^-12 in absolute terms near 1, in proportion (5*10^-13 of the price, at least one unit of the
+// 18th digit) for the prices near 10^-9 and 10^+9 of a pair with mixed decimals
+func c20RateStep(mp sdkmath.LegacyDec) int64 {
+	if mp.GT(dec("0.001")) && mp.LT(dec("1000")) {
+		return 1_000_000
+	}
+	s := mp.QuoInt64(2_000_000_000_000).BigInt()
+	if !s.IsInt64() || s.Int64() > 1<<60 {
+		return 1 << 60
+	}
+	if s.Int64() < 1 {
+		return 1
+	}
+	return s.Int64()
+}
+
 func c20Rate(k int, mp sdkmath.LegacyDec, ulp int64) sdkmath.LegacyDec {
 	u := sdkmath.LegacyNewDecFromBigIntWithPrec(big.NewInt(ulp), 18)
 	switch k {
@@ -709,18 +795,27 @@ func (x *c20Run) exec(op c20Op) {
 			x.col.Op("blocks", "ok", nil)
 		}
 		return
-	case "price", "price_to", "price_missing":
+	case "price", "price_to", "price_missing", "price_abs":
 		switch op.Op {
 		case "price":
-			d := c20Denoms[op.D%3]
+			d := c20Denoms[op.D%len(c20Denoms)]
+			if _, known := m.Display[d]; !known {
+				break
+			}
 			if p, ok := m.Prices[d]; ok {
 				m.SetPrice(d, p.Mul(dec(op.P)))
 			} else if p, ok := x.saved[d]; ok {
 				m.SetPrice(d, p.Mul(dec(op.P)))
 				delete(x.saved, d)
 			}
+		case "price_abs":
+			d := c20Denoms[op.D%len(c20Denoms)]
+			if _, known := m.Display[d]; known {
+				delete(x.saved, d)
+				m.SetPrice(d, dec(op.RAbs))
+			}
 		case "price_missing":
-			d := c20Denoms[op.D%3]
+			d := c20Denoms[op.D%len(c20Denoms)]
 			if p, ok := m.Prices[d]; ok && d != USDC {
 				x.saved[d] = p
 				delete(m.Prices, d)
@@ -735,22 +830,40 @@ func (x *c20Run) exec(op c20Op) {
 				o := before.perp[op.Idx[0]%len(before.perp)]
 				if o.TriggerPrice.Rate.IsPositive() {
 					p := o.TriggerPrice.Rate.Add(sdkmath.LegacyNewDecFromBigIntWithPrec(big.NewInt(int64(op.Off)), 18))
-					if p.IsPositive() {
-						delete(x.saved, ATOM)
-						m.SetPrice(ATOM, p)
+					if _, known := m.Display[o.TradingAsset]; p.IsPositive() && known {
+						delete(x.saved, o.TradingAsset)
+						m.SetPrice(o.TradingAsset, p)
 					}
 				}
 			} else if len(before.spot) > 0 && op.Idx[0] >= 0 {
 				o := before.spot[op.Idx[0]%len(before.spot)]
 				b, q := o.OrderPrice.BaseDenom, o.OrderPrice.QuoteDenom
-				r := o.OrderPrice.Rate.Add(sdkmath.LegacyNewDecFromBigIntWithPrec(big.NewInt(int64(op.Off)*1_000_000), 18))
-				if r.IsPositive() {
-					if q == USDC && b != USDC {
-						delete(x.saved, b)
-						m.SetPrice(b, r)
-					} else if b == USDC && q != USDC {
-						delete(x.saved, q)
-						m.SetPrice(q, sdkmath.LegacyOneDec().Quo(r))
+				// one step: 10^-12 of the rate's unit for a pair of equal decimals, 5*10^-4 of the rate for mixed decimals (rates near
+				// 10^-9 / 10^+9); P = "fine" selects a step below the resolution of the per-base-unit USD value the code works with
+				step := int64(1_000_000)
+				if op.P == "fine" {
+					step = 300
+				}
+				r := o.OrderPrice.Rate.Add(sdkmath.LegacyNewDecFromBigIntWithPrec(big.NewInt(int64(op.Off)*step), 18))
+				if c20Decimals[b] != c20Decimals[q] {
+					pm := int64(50)
+					if op.P == "fine" {
+						pm = 15
+					}
+					r = o.OrderPrice.Rate.Add(o.OrderPrice.Rate.MulInt64(int64(op.Off) * pm).QuoInt64(100_000))
+				}
+				_, kb := m.Display[b]
+				_, kq := m.Display[q]
+				if r.IsPositive() && kb && kq && b != q {
+					// move the side that is not uusdc (the base if neither is) so that the EXACT price of the pair becomes r
+					moveBase := b != USDC
+					d := q
+					if moveBase {
+						d = b
+					}
+					if p, ok := x.c20PriceFor(w.Ctx(), b, q, r, moveBase); ok {
+						delete(x.saved, d)
+						m.SetPrice(d, p)
 					}
 				}
 			}
@@ -775,11 +888,15 @@ func (x *c20Run) exec(op c20Op) {
 		}
 		probe := tstypes.SpotOrder{OrderPrice: tstypes.OrderPrice{BaseDenom: pair[0], QuoteDenom: pair[1]}}
 		mp, ok := x.spotPrice(w.QCtx(), probe)
+		x.c20PriceCheck(pair[0], pair[1], mp, ok, x.c20Exact(w.QCtx(), pair[0], pair[1]))
 		if !ok {
 			mp = dec("1")
 		}
-		rate := c20Rate(op.Rate, mp, 1_000_000)
-		a := c20Rel(op.Amt, before.user[u][x.dIdx(den)])
+		rate := c20Rate(op.Rate, mp, c20RateStep(mp))
+		if op.RAbs != "" {
+			rate = dec(op.RAbs)
+		}
+		a := c20Scale(op, den, op.Amt, c20Rel(op.Amt, before.user[u][x.dIdx(den)]))
 		amt = a.BigInt()
 		msg := &tstypes.MsgCreateSpotOrder{OrderType: tstypes.SpotOrderType(op.Typ), OrderPrice: tstypes.OrderPrice{BaseDenom: pair[0], QuoteDenom: pair[1], Rate: rate},
 			OrderAmount: sdk.Coin{Denom: den, Amount: a}, OwnerAddress: sender, OrderTargetDenom: tgtDen}
@@ -797,27 +914,31 @@ func (x *c20Run) exec(op c20Op) {
 		res = w.Deliver(msg)
 		coq = fmt.Sprintf("OCreateSpot %d %d %d %d %s %d %s (%s)", u, op.Typ, x.dIdx(pair[0]), x.dIdx(pair[1]), c20Dec(rate), x.dIdx(den), zstr(amt), inn)
 	case "perp_create":
+		// trading asset: uatom in pool 1, or the 18-decimals aweth in pool 2 (on a market without it: an unknown asset / pool 0 is refused)
+		ast, pool, fallback, tpL, tpS := ATOM, m.OraclePool, "5", "20", "1"
+		if op.Ast == 1 {
+			ast, pool, fallback, tpL, tpS = WETH, m.OraclePool2, "2000", "8000", "400"
+		}
 		den := USDC
 		if op.Den == 1 {
-			den = ATOM
+			den = ast
 		}
-		mp, err := w.App.PerpetualKeeper.GetAssetPrice(w.QCtx(), ATOM)
+		mp, err := w.App.PerpetualKeeper.GetAssetPrice(w.QCtx(), ast)
 		if err != nil {
-			mp = dec("5")
+			mp = dec(fallback)
 		}
 		trig := c20Rate(op.Rate, mp, 1)
-		a := c20Rel(op.Amt, before.user[u][x.dIdx(den)])
+		a := c20Scale(op, den, op.Amt, c20Rel(op.Amt, before.user[u][x.dIdx(den)]))
 		amt = a.BigInt()
-		tp := dec("20")
+		tp := dec(tpL)
 		if op.Typ == 2 {
-			tp = dec("1")
+			tp = dec(tpS)
 		}
-		pool := m.OraclePool
 		if op.Pool == 1 {
 			pool = 999
 		}
-		msg := &tstypes.MsgCreatePerpetualOpenOrder{OwnerAddress: sender, TriggerPrice: tstypes.TriggerPrice{TradingAssetDenom: ATOM, Rate: trig},
-			Collateral: sdk.Coin{Denom: den, Amount: a}, TradingAsset: ATOM, Position: tstypes.PerpetualPosition(op.Typ), Leverage: dec(op.Lev),
+		msg := &tstypes.MsgCreatePerpetualOpenOrder{OwnerAddress: sender, TriggerPrice: tstypes.TriggerPrice{TradingAssetDenom: ast, Rate: trig},
+			Collateral: sdk.Coin{Denom: den, Amount: a}, TradingAsset: ast, Position: tstypes.PerpetualPosition(op.Typ), Leverage: dec(op.Lev),
 			TakeProfitPrice: tp, StopLossPrice: dec("0"), PoolId: pool}
 		// environment of the handler: pool known, no open position of the same kind, estimation accepts
 		env := func() (e int) {
@@ -835,18 +956,18 @@ func (x *c20Run) exec(op c20Op) {
 				return 1
 			}
 			for _, p := range mtps {
-				if p.Mtp.AmmPoolId == pool && p.Mtp.Position == perptypes.Position(op.Typ) && p.Mtp.CollateralAsset == den && p.Mtp.TradingAsset == ATOM {
+				if p.Mtp.AmmPoolId == pool && p.Mtp.Position == perptypes.Position(op.Typ) && p.Mtp.CollateralAsset == den && p.Mtp.TradingAsset == ast {
 					return 1
 				}
 			}
 			if _, err := w.App.PerpetualKeeper.HandleOpenEstimation(q, &perptypes.QueryOpenEstimationRequest{Position: perptypes.Position(op.Typ), Leverage: dec(op.Lev),
-				TradingAsset: ATOM, Collateral: sdk.Coin{Denom: den, Amount: a}, TakeProfitPrice: tp, PoolId: pool, LimitPrice: trig}); err != nil {
+				TradingAsset: ast, Collateral: sdk.Coin{Denom: den, Amount: a}, TakeProfitPrice: tp, PoolId: pool, LimitPrice: trig}); err != nil {
 				return 1
 			}
 			return 0
 		}()
 		res = w.Deliver(msg)
-		coq = fmt.Sprintf("OCreatePerp %d %d %s %d %s %s %d %d %d", u, op.Typ, c20Dec(trig), x.dIdx(den), zstr(amt), c20Dec(tp), pool, x.dIdx(ATOM), env)
+		coq = fmt.Sprintf("OCreatePerp %d %d %s %d %s %s %d %d %d", u, op.Typ, c20Dec(trig), x.dIdx(den), zstr(amt), c20Dec(tp), pool, x.dIdx(ast), env)
 	case "spot_update":
 		id := x.pickSpot(before, op.Idx[0])
 		if o := before.findSpot(id); o != nil {
@@ -863,7 +984,7 @@ func (x *c20Run) exec(op c20Op) {
 		if !ok {
 			mp = dec("1")
 		}
-		rate := c20Rate(op.Rate, mp, 1_000_000)
+		rate := c20Rate(op.Rate, mp, c20RateStep(mp))
 		res = w.Deliver(&tstypes.MsgUpdateSpotOrder{OwnerAddress: sender, OrderId: id, OrderPrice: tstypes.OrderPrice{BaseDenom: pair[0], QuoteDenom: pair[1], Rate: rate}})
 		coq = fmt.Sprintf("OUpdateSpot %d %d %d %d %s", u, id, x.dIdx(pair[0]), x.dIdx(pair[1]), c20Dec(rate))
 	case "perp_update":
@@ -874,13 +995,20 @@ func (x *c20Run) exec(op c20Op) {
 				sender, u = o.OwnerAddress, x.uidx[o.OwnerAddress]-1
 			}
 		}
-		mp, err := w.App.PerpetualKeeper.GetAssetPrice(w.QCtx(), ATOM)
+		ast, fallback := ATOM, "5"
+		if o := before.findPerp(id); o != nil && o.TradingAsset == WETH {
+			ast, fallback = WETH, "2000"
+		}
+		mp, err := w.App.PerpetualKeeper.GetAssetPrice(w.QCtx(), ast)
 		if err != nil {
-			mp = dec("5")
+			mp = dec(fallback)
 		}
 		trig := c20Rate(op.Rate, mp, 1)
+		if ast == WETH && op.Rate >= 7 { // the absolute choices 1.5 / 1 are meant for a price of 5
+			trig = trig.MulInt64(400)
+		}
 		pp := w.App.PerpetualKeeper.GetParams(w.QCtx())
-		res = w.Deliver(&tstypes.MsgUpdatePerpetualOrder{OwnerAddress: sender, OrderId: id, TriggerPrice: tstypes.TriggerPrice{TradingAssetDenom: ATOM, Rate: trig}})
+		res = w.Deliver(&tstypes.MsgUpdatePerpetualOrder{OwnerAddress: sender, OrderId: id, TriggerPrice: tstypes.TriggerPrice{TradingAssetDenom: ast, Rate: trig}})
 		coq = fmt.Sprintf("OUpdatePerp %d %d %s %s %s %s", u, id, c20Dec(trig), c20Dec(pp.MinimumLongTakeProfitPriceRatio), c20Dec(pp.MaximumLongTakeProfitPriceRatio), c20Dec(pp.MaximumShortTakeProfitPriceRatio))
 	case "spot_cancel", "perp_cancel", "spot_cancels", "perp_cancels":
 		perp := strings.HasPrefix(op.Op, "perp")
@@ -965,9 +1093,10 @@ func (x *c20Run) exec(op c20Op) {
 			v := (u + 1 + op.D) % c20Users
 			to, toCoq = x.users[v], fmt.Sprintf("AUser %d", v)
 		}
+		d := op.D % len(c20Denoms)
 		a, _ := sdkmath.NewIntFromString(op.Amt)
+		a = c20Scale(op, c20Denoms[d], op.Amt, a)
 		amt = a.BigInt()
-		d := op.D % 3
 		res = w.Deliver(&banktypes.MsgSend{FromAddress: sender, ToAddress: to.String(), Amount: sdk.NewCoins(sdk.NewCoin(c20Denoms[d], a))})
 		if e, isEsc := x.escIdx[to.String()]; isEsc && res.OK() {
 			var owner string
@@ -1106,9 +1235,24 @@ func (x *c20Run) exec(op c20Op) {
 					same = a != nil && b != nil && x.spotCoq(*a) == x.spotCoq(*b)
 				}
 				same = same && c20SameBal(before.esc[k], after.esc[k])
-				if (!r.price || !r.trig) && !same && before.esc[k] != nil {
+				// the verdict comes from the independent price (r.v*); within c20AmbigUlp units of the rate's last digit it is withheld
+				if r.exact && r.vambig {
+					x.ambig++
+				} else if (!r.vprice || !r.vtrig) && !same && before.esc[k] != nil {
 					// only meaningful if the id is listed once (a later duplicate sees the earlier attempt's state)
-					x.fail("C20:executed-without-trigger", fmt.Sprintf("order %d (perp=%v) changed although its trigger condition is not met (price known: %v)", r.id, perp, r.price))
+					sig := "C20:executed-without-trigger"
+					if !perp && r.exact && r.price && r.trig {
+						// the code acted on its own market price; name the cause if that value is the per-base-unit rounding of the code as it is
+						if o := before.findSpot(r.id); o != nil {
+							px := r.px
+							if v, ok := c20AsIs(px); px.ok && (!ok || (v.Equal(r.kp) && c20SpotTrig(*o, v))) {
+								sig = "C20:executed-without-trigger:market-price-rounded-per-base-unit"
+							}
+						}
+					}
+					x.fail(sig, fmt.Sprintf("order %d (perp=%v) changed although its trigger condition is not met (price known: %v); %s", r.id, perp, r.vprice, r.vdetail))
+				} else if r.exact && r.vtrig && r.price && !r.trig && same {
+					x.metButSkipped++ // trigger met by the exact price, skipped by the code: no funds moved, not a violation of this property
 				}
 				if r.inner == "err" && res.OK() {
 					if !same {
@@ -1127,7 +1271,9 @@ func (x *c20Run) exec(op c20Op) {
 
 func c20Exec(t *testing.T, col *Collector, h c20Hist) string {
 	w := NewWorld(t)
-	m := NewMarket(w, DefaultMarketOpts())
+	mo := DefaultMarketOpts()
+	mo.Extra18 = !h.Plain
+	m := NewMarket(w, mo)
 	x := &c20Run{t: t, col: col, w: w, m: m, h: h, uidx: map[string]int{}, escIdx: map[string][2]int{}, ext: map[string]int{}, saved: map[string]sdkmath.LegacyDec{}, don: map[[2]int]*big.Int{}}
 	for i := 0; i < c20Users; i++ {
 		a := m.Users[i+1]
@@ -1164,8 +1310,14 @@ func c20Exec(t *testing.T, col *Collector, h c20Hist) string {
 	}
 	add("failed_attempts_that_changed_the_order_or_its_escrow", x.drained)
 	add("owner_cancels_rejected", x.cancelRejected)
+	add("price_keeper_vs_exact_ratio_comparisons", x.priceCmp)
+	add("price_from_keeper_no_oracle_record", x.noOracle)
+	add("price_unit_value_rounds_to_zero", x.unitZero)
+	add("verdict_withheld_exact_price_within_2ulp_of_rate", x.ambig)
+	add("trigger_met_by_exact_price_but_skipped", x.metButSkipped)
+	add("order_attempts_on_18_decimals_asset", x.wethAttempts)
 	col.mu.Unlock()
-	return fmt.Sprintf("mkC %d [%s] [\n  %s]", h.ID, strings.Join(init, ";"), strings.Join(x.steps, ";\n  "))
+	return fmt.Sprintf("mkPC (mkC %d [%s] [\n  %s])\n  [%s]", h.ID, strings.Join(init, ";"), strings.Join(x.steps, ";\n  "), strings.Join(x.pchecks, "; "))
 }
 
 func TestC20(t *testing.T) {
@@ -1193,8 +1345,8 @@ func TestC20(t *testing.T) {
 			col.Case(i, txt)
 		}
 	})
-	header := "From Coq Require Import ZArith List Bool.\nFrom Elys Require Import Base.Res Models.Shield Run.ShieldRun.\nImport ListNotations.\nOpen Scope Z_scope.\n"
-	footer := fmt.Sprintf("Definition M := Eval vm_compute in mismatches %v cases.\nPrint M.\n", c20Fixed)
+	header := "From Coq Require Import ZArith List Bool.\nFrom Elys Require Import Base.Res Models.Shield Run.ShieldRun Models.ShieldPrice Run.ShieldPriceRun.\nImport ListNotations.\nOpen Scope Z_scope.\n"
+	footer := fmt.Sprintf("Definition M := Eval vm_compute in mismatches %v (map pc_case cases) ++ price_mismatches %v cases.\nPrint M.\n", c20Fixed, c20PriceFixed)
 	col.Finish(t, len(hists), header, footer, 6)
 }
 
@@ -1235,6 +1387,36 @@ func c20Corpus() []c20Hist {
 			{Op: "price_to", Kind: 1, Idx: []int{0}, Off: 0},
 			{Op: "execute", U: 3, Idx2: []int{0, 1}},
 			{Op: "perp_cancel", U: 1, Idx: []int{0}, Own: true},
+			{Op: "blocks", N: 1, DT: 5}}},
+		{Ops: []c20Op{ // 18 decimals: aweth at 2000.6 USD, limit sell of 1 WETH at 2000.8 USD (rate 2.0008e-9 uusdc per aweth), third-party execute:
+			// the exact market price 2.0006e-9 is below the limit; the code values one aweth at 2001e-18 USD and sells
+			{Op: "price_abs", D: 3, RAbs: "2000.6"},
+			{Op: "spot_create", U: 0, Typ: 1, Pair: 5, RAbs: "0.0000000020008", Amt: "1000000", Sc: 1},
+			{Op: "execute", U: 2, Idx: []int{0}},
+			{Op: "blocks", N: 1, DT: 5}}},
+		{Ops: []c20Op{ // 6 decimals, 13th digit: uatom at 5.0000000000004, stop loss at 5.0000000000002 executed although the market is above it
+			{Op: "price_abs", D: 1, RAbs: "5.0000000000004"},
+			{Op: "spot_create", U: 1, Typ: 0, Pair: 0, RAbs: "5.0000000000002", Amt: "1000000"},
+			{Op: "execute", U: 3, Idx: []int{0}}}},
+		{Ops: []c20Op{ // 18 decimals below 0.5 USD: the per-base-unit value 0.4e-18 rounds to ZERO, the oracle record is dropped; the amm spot price
+			// substituted for it is zero for the same reason: ErrPriceNotFound, no order on the pair can execute (funds safe; counted in extra)
+			{Op: "price_abs", D: 3, RAbs: "0.4"},
+			{Op: "spot_create", U: 0, Typ: 1, Pair: 5, RAbs: "0.0000000000005", Amt: "1000000", Sc: 1}, // limit sell at 0.5 USD per WETH, market 0.4
+			{Op: "execute", U: 2, Idx: []int{0}}}},
+		{Ops: []c20Op{ // mixed decimals, both directions, triggers that ARE / are NOT met by a wide margin; perpetual orders on aweth in pool 2
+			{Op: "spot_create", U: 0, Typ: 1, Pair: 5, Rate: 3, Amt: "2000000", Sc: 1},  // limit sell aweth above the market: stays
+			{Op: "spot_create", U: 1, Typ: 2, Pair: 6, Rate: 3, Amt: "50000000"},        // limit buy uusdc->aweth, rate above the market: executes
+			{Op: "spot_create", U: 2, Typ: 0, Pair: 7, Rate: 4, Amt: "1000000", Sc: 1},  // stop loss aweth/uatom below the market: stays
+			{Op: "execute", U: 3, Idx: []int{1}},
+			{Op: "execute", U: 3, Idx: []int{0}},
+			{Op: "price", D: 3, P: "1.25"},
+			{Op: "execute", U: 3, Idx: []int{0}},
+			{Op: "perp_create", U: 0, Typ: 1, Ast: 1, Rate: 2, Amt: "100000000", Lev: "2"},
+			{Op: "perp_create", U: 1, Typ: 2, Ast: 1, Rate: 1, Amt: "100000000", Lev: "2"},
+			{Op: "execute", U: 3, Idx2: []int{0, 1}},
+			{Op: "price_to", Kind: 1, Idx: []int{0}, Off: 0},
+			{Op: "execute", U: 3, Idx2: []int{0}},
+			{Op: "spot_cancel", U: 2, Idx: []int{0}, Own: true},
 			{Op: "blocks", N: 1, DT: 5}}},
 	}
 }
